@@ -2,6 +2,7 @@ import Driver.Common
 import Driver.Galloc
 import Driver.TapeDrv
 import Driver.RecBufDrv
+import Driver.Storage
 /-! `adept_model <family>`: line protocol on stdin/stdout, one result line per input line.
     Every import of this file must stay free of Mathlib (the driver is linked natively). -/
 open Adept Adept.Drv
@@ -11,4 +12,5 @@ def main (args : List String) : IO UInt32 := do
   | ["galloc"] => runFamily GallocDrv.step {}; return 0
   | ["tape"] => runFamily TapeDrv.step {}; return 0
   | ["recbuf"] => runFamily RecBufDrv.step (); return 0
+  | ["storage"] => runFamily StorageDrv.step {}; return 0
   | _ => IO.eprintln "usage: adept_model <family>"; return 2
